@@ -233,6 +233,39 @@ def check_kinetics(ctx, jobs):
                     if True:
                         C1.check_entry(ctx, got2, exp, mag, U, dict(case, apply=False, apply_form=form2), "chem-kinetics:ignore-flag",
                                        "compute_dspeciesdt(apply_chemostats=False) of the flagged entry (species %d, cell %d)" % (s, i))
+        # ---- the whole-state function: every free entry follows the rate law, also for a species flagged in SOME cells only
+        partial = [s for s in range(ns) if 0 < sum(chem[s * n:(s + 1) * n]) < n]
+        ctx.count("species_flagged_in_some_cells_only", len(partial))
+        case = dict(base_case(jb, "dstatedt"), apply=True)
+        vals = whole_dstatedt(system, U)
+        ctx.case((fp, "whole"), nontrivial=bool(partial), sample={"op": "compute_dstatedt", "species_flagged_in_some_cells_only": partial})
+        if vals[0] == "error":
+            ctx.violation("chem-dstatedt:raises", "compute_dstatedt raised %s" % vals[1], case, impl=vals[1])
+        else:
+            for e in range(ns * n):
+                s_, i_ = e // n, e % n
+                if chem[e]:
+                    if vals[0][e] != 0:
+                        ctx.violation("chem-dstatedt:flagged-nonzero", "compute_dstatedt: the chemostated entry %d (species %d, cell %d) is %r, not 0"
+                                      % (e, s_, i_, float(vals[0][e])), dict(case, e=e), impl=float(vals[0][e]), expected="0")
+                        break
+                elif not jb["parallel"]:
+                    exp, mag = orc[e]
+                    what = "compute_dstatedt entry %d (species %d, cell %d: free; the species is chemostated in %d of the %d cells)" % (
+                        e, s_, i_, sum(chem[s_ * n:(s_ + 1) * n]), n)
+                    if not C1.check_entry(ctx, (vals[0][e], vals[1], vals[2]), exp, mag, U, dict(case, e=e), "chem-dstatedt:unflagged", what):
+                        break
+
+
+def whole_dstatedt(system, U):
+    """compute_dstatedt(apply_chemostats=True) as (SI values, dim, system) or ('error', type)"""
+    import strengths.kinetics as kin
+    try:
+        arr = kin.compute_dstatedt(system, None, True, L.us_obj(U))
+        f = L.si_factor(L.sys_of(arr.units.sys), L.dim_of(arr.units.dim))
+        return ([Fraction(float(v)) * f for v in arr.value], L.dim_of(arr.units.dim), L.sys_of(arr.units.sys))
+    except Exception as ex:  # noqa
+        return ("error", type(ex).__name__)
 
 
 # ------------------------------------------------------------------------------------------------ dxdtf
@@ -763,6 +796,18 @@ def replay(ctx, rec):
             return False, out
         ok = (got[0] == 0) if flagged else close(float(got[0]), exp, orc[e][1], rel=TOL)
         return ok and tuple(got[1]) == L.D_RATE, out
+    if case["kind"] == "dstatedt":
+        x = L.state_si(system.state)
+        orc = L.oracle_rate(phys, x)
+        vals = whole_dstatedt(system, tuple(case["U"]))
+        if vals[0] == "error":
+            out.update(impl=vals[1])
+            return False, out
+        e = case.get("e", 0)
+        exp = Fraction(0) if chem[e] else orc[e][0]
+        out.update(entry=e, flag=chem[e], impl=float(vals[0][e]), expected=float(exp), whole=[float(v) for v in vals[0]])
+        ok = (vals[0][e] == 0) if chem[e] else close(float(vals[0][e]), exp, orc[e][1], rel=TOL)
+        return ok, out
     if case["kind"] == "dxdtf":
         return C1.replay(ctx, rec)
     if case["kind"] == "apply_reaction":
